@@ -111,6 +111,8 @@ def check(run):
                 req.proxy_info = [ProxyInfo(proxy_host=b"p.example.net", proxy_state=b"\x01\x02")]
             req.header.hop_by_hop_identifier = 77
             req.header.end_to_end_identifier = 88
+            app_id = [0, 4, 16777238, 0xffffffff][(n_gen // 2) % 4]         # incl. the boundary 0: mirrored, never "filled in"
+            req.header.application_id = app_id
             req.header.command_flags = (req.header.command_flags & ~0x70) | fbits     # P and T bits vary independently
             for how in ("node", "app"):
                 a = node._generate_answer(None, req) if how == "node" else app.generate_answer(req, 2001, "ok")
@@ -137,6 +139,42 @@ def check(run):
                     ah = a.header
                     if (ah.hop_by_hop_identifier, ah.end_to_end_identifier, ah.command_flags & 0xb0) != (77, 88, 0):
                         run.violation("generated-header", case, list(hdr_tuple(ah)))
+                if a.header.application_id != app_id or a.header.command_code != req.header.command_code:
+                    run.violation("generated-header", dict(case, request_application_id=app_id), list(hdr_tuple(a.header)),
+                                  what="a generated answer does not bear the request's application id / command code")
+    # commands WITHOUT a python class (registered placeholders and unknown codes): the node's own answers carry the base AVPs
+    from diameter.message.commands import all_commands
+    from diameter.message import DefinedMessage
+    untyped = sorted(c for c, k in all_commands.items() if not issubclass(k, DefinedMessage))[:12] + [999, 8388000]
+    sess = O.ref_avp(263, 0x40, 0, b"sess;9;9")
+    pinfo = O.ref_avp(284, 0x40, 0, O.ref_avp(280, 0x40, 0, b"p.example.net") + O.ref_avp(33, 0x40, 0, b"\x01\x02"))
+    for code in untyped:
+        for body, label in ((sess + pinfo + pinfo, "session+2 proxy-info"), (b"", "no AVPs"), (pinfo, "proxy-info only")):
+            for fbits in (0x80, 0xc0, 0x90):
+                wire = bytes([1]) + (20 + len(body)).to_bytes(3, "big") + bytes([fbits]) + code.to_bytes(3, "big") + \
+                    (16777238).to_bytes(4, "big") + (77).to_bytes(4, "big") + (88).to_bytes(4, "big") + body
+                req = Message.from_bytes(wire)
+                a = node._generate_answer(None, req)
+                node._set_result_code(a, 3007) if hasattr(node, "_set_result_code") else None
+                got = O.ref_parse_avps(a.as_bytes()[20:])
+                case = {"command": code, "class": type(req).__name__, "request": label, "flags": fbits, "via": "node"}
+                n_gen += 1
+                run.count(1, [("gen-untyped", code, label, fbits)])
+                have = {(c, v): [p for c2, _f, v2, p in got if (c2, v2) == (c, v)] for c, _f, v, _p in got}
+                problems = []
+                if have.get((264, 0)) != [b"srv.example.net"] or have.get((296, 0)) != [b"example.net"]:
+                    problems.append("Origin-Host / Origin-Realm")
+                if "session" in label and have.get((263, 0)) != [b"sess;9;9"]:
+                    problems.append("Session-Id")
+                if len(have.get((284, 0), [])) != label.count("proxy-info") * (2 if "2 proxy" in label else 1):
+                    problems.append("Proxy-Info")
+                ah = a.header
+                if (ah.command_code, ah.application_id, ah.hop_by_hop_identifier, ah.end_to_end_identifier, ah.command_flags) != \
+                        (code, 16777238, 77, 88, fbits & 0x40):
+                    problems.append("header")
+                if problems:
+                    run.violation("generated-untyped", case, sorted((c, v) for c, v in have), None,
+                                  what=f"the node's answer to command {code} (no python class) lacks / miscopies: " + ", ".join(problems))
     run.extra["generated_answers"] = n_gen
     run.exhaustive = thorough
     ok = ("Definition ok (c : string * hdr * string * hdr) : bool := let '(cn, h, an, ah) := c in\n"
